@@ -28,7 +28,7 @@ TRUSTED = [
     'dtype equality of matching collectives is checked by simdist (not modelled: inst.idtype = 0)',
 ]
 THEOREMS = ['proj_ok_sound', 'members_issue_same_sequence', 'no_foreign_group', 'no_deadlock', 'every_execution_completes',
-            'kfac_comm_proj', 'kfac_never_stalls', 'neox_comm_proj', 'neox_never_stalls', 'queries_silent_at_step_boundary', 'generator_dtypes', 'neox_generator_dtypes']
+            'kfac_comm_proj', 'kfac_never_stalls', 'neox_comm_proj', 'neox_never_stalls', 'queries_silent_at_step_boundary', 'factorless_load_is_silent', 'own_factorless_state_is_noop', 'generator_dtypes', 'neox_generator_dtypes']
 NOTES = ('kfac_comm_proj proves, for every KAISA grid, method, layer table, bucket capacity and history, that the K-FAC programs are '
          'projections of one global order (hence never stall, kfac_never_stalls); the tie checks that the generator IS what the code issues. '
          'Constructor new_group calls and GPT-NeoX communication are covered per observed run by proj_ok_b (proj_ok_sound).')
